@@ -302,16 +302,28 @@ def mech_validate(verdict, runs, module, cfg, tag, label, model_name, probes=())
         res = tlc_mech_trace(module, path, name=f'{tag}_{label}_mech', cfg=cfg)
     pr = {}
     for pname, mut in probes:
-        mutated = mut(list(flat))
-        if mutated == flat:
+        # a probe yields one corrupted copy, or several candidates (a corruption is not always observable: e.g. moving an
+        # event past another one that happens to be a no-op for the model); the binding is shown non-vacuous as soon as one
+        # candidate is rejected
+        cands = mut(list(flat))
+        if not (isinstance(cands, list) and cands and isinstance(cands[0], list)):
+            cands = [cands]
+        cands = [c for c in cands if c != flat][:4]
+        if not cands:
             pr[pname] = 'not applicable'
             continue
-        pp = os.path.join(WORK, tag, f'{label}.mech.{pname}.ndjson')
-        write_ndjson(pp, mutated)
-        r2 = tlc_mech_trace(module, pp, name=f'{tag}_{label}_{pname}', cfg=cfg)
-        if r2['matched'] == r2['total'] and not r2['invariant_violated']:
-            raise ToolError(f'{module}: accepted the corrupted trace {pname}: the binding is vacuous')
-        pr[pname] = f'rejected at event {r2["matched"] + 1} of {r2["total"]}'
+        verdicts = []
+        for ci, mutated in enumerate(cands):
+            pp = os.path.join(WORK, tag, f'{label}.mech.{pname}{ci}.ndjson')
+            write_ndjson(pp, mutated)
+            r2 = tlc_mech_trace(module, pp, name=f'{tag}_{label}_{pname}{ci}', cfg=cfg)
+            rejected = not (r2['matched'] == r2['total'] and not r2['invariant_violated'])
+            verdicts.append(rejected)
+            if rejected:
+                pr[pname] = f'rejected at event {r2["matched"] + 1} of {r2["total"]}' + (f' (candidate {ci + 1})' if ci else '')
+                break
+        if not any(verdicts):
+            raise ToolError(f'{module}: accepted every corrupted trace of probe {pname} ({len(cands)} candidates): the binding is vacuous')
     return {'runs': len(runs), 'events': res['total'], 'matched': res['matched'], 'tlc_states': res.get('tlc_states'),
             'runs_rejected': drift, 'corruption_probes': pr}
 
